@@ -616,7 +616,8 @@ def transform_fn(text, spec):
             # method chains may be broken over lines and re-indented: white space is flexible between the tokens of the source text
             rx = re.compile(r'\s*'.join(re.escape(tok).replace(re.escape('{id}'), r'([A-Za-z_][A-Za-z0-9_]*)').replace(r'\.', r'\s*\.\s*')
                                          for tok in frm.split()))
-            hits = [mm for mm in rx.finditer(t) if sh.bopen < mm.start() < sh.bclose]
+            lo = sh.popen if frm.startswith('&') or '<' in frm else sh.bopen      # type texts may sit in the parameter list
+            hits = [mm for mm in rx.finditer(t) if lo < mm.start() < sh.bclose]
             if not hits:
                 raise ExtractError('R11: text to rewrite not found: %s' % frm)
             for mm in hits:
